@@ -35,6 +35,39 @@ fn errname(e: &fjall::Error) -> String {
     s.split(|c: char| !c.is_alphanumeric()).next().unwrap_or("Error").to_string()
 }
 
+/// deterministic filter decided from the key: keys starting with 'x' are removed, keys starting with 'r' get the value "R", others are kept
+struct KeyFilter;
+
+impl fjall::compaction::filter::CompactionFilter for KeyFilter {
+    fn filter_item(
+        &mut self,
+        item: fjall::compaction::filter::ItemAccessor<'_>,
+        _ctx: &fjall::compaction::filter::Context,
+    ) -> fjall::compaction::filter::CompactionFilterResult {
+        use fjall::compaction::filter::Verdict;
+        let k = item.key();
+        if k.starts_with(b"x") {
+            Ok(Verdict::Remove)
+        } else if k.starts_with(b"r") {
+            Ok(Verdict::ReplaceValue(b"R".to_vec().into()))
+        } else {
+            Ok(Verdict::Keep)
+        }
+    }
+}
+
+struct KeyFilterFactory;
+
+impl fjall::compaction::filter::Factory for KeyFilterFactory {
+    fn name(&self) -> &str {
+        "keyfilter"
+    }
+
+    fn make_filter(&self, _ctx: &fjall::compaction::filter::Context) -> Box<dyn fjall::compaction::filter::CompactionFilter> {
+        Box::new(KeyFilter)
+    }
+}
+
 enum Db {
     Plain(Database),
     Opt(OptimisticTxDatabase),
@@ -104,6 +137,17 @@ impl World {
                 }
                 if let Some(v) = self.opts.get("workers") {
                     b = b.worker_threads_unchecked(v.parse().expect("workers"));
+                }
+                if let Some(names) = self.opts.get("filter") {
+                    let names: Vec<String> = names.split(',').map(str::to_string).collect();
+                    b = b.with_compaction_filter_factories(std::sync::Arc::new(move |ks: &str| {
+                        if names.iter().any(|n| n == ks) {
+                            let f: std::sync::Arc<dyn fjall::compaction::filter::Factory> = std::sync::Arc::new(KeyFilterFactory);
+                            Some(f)
+                        } else {
+                            None
+                        }
+                    }));
                 }
                 if let Some(v) = self.opts.get("compression") {
                     if v == "lz4" {
@@ -510,7 +554,7 @@ fn main() {
                     let mut c = KeyspaceCreateOptions::default()
                         .max_memtable_size(1_000_000 * (var + 1))
                         .manual_journal_persist(var % 2 == 1)
-                        .expect_point_read_hits(var % 2 == 1)
+                        .expect_point_read_hits(var % 2 == 0)
                         .data_block_size_policy(BlockSizePolicy::new([2_048 * (v + 1), 16_384]))
                         .data_block_hash_ratio_policy(HashRatioPolicy::new([0.5 * (v as f32), 1.25]))
                         .data_block_restart_interval_policy(RestartIntervalPolicy::new([4 + v as u8, 9]))
@@ -532,7 +576,7 @@ fn main() {
                         "blob" => {
                             c = c.with_kv_separation(Some(
                                 fjall::KvSeparationOptions::default()
-                                    .separation_threshold(100 + v)
+                                    .separation_threshold(70_000 + v)
                                     .file_target_size(1_000_000 + var)
                                     .staleness_threshold(0.5)
                                     .age_cutoff(0.25)
